@@ -675,6 +675,36 @@ impl<A: Cx> World<A> {
             "obs" => {
                 let gets: Vec<usize> = op["gets"].as_array().unwrap().iter().map(|x| x.as_u64().unwrap() as usize).collect();
                 let nths: Vec<usize> = op["nths"].as_array().unwrap().iter().map(|x| x.as_u64().unwrap() as usize).collect();
+                if op["src"]["acc"].as_str() == Some("seq") {
+                    // every accessor called on the OWNED value itself (method resolution starts at Seq)
+                    let q: &Seq<A> = self.regs[gu(&op["src"], "r")].as_ref().unwrap();
+                    assert!(op["src"]["path"].as_array().unwrap().is_empty(), "harness: acc=seq takes the whole register");
+                    let g: Vec<i64> = gets.iter().map(|&i| q.get(i).map_or(-1, |x| x.to_bits() as i64)).collect();
+                    let n: Vec<i64> = nths
+                        .iter()
+                        .map(|&i| {
+                            let a = catch_unwind(AssertUnwindSafe(|| q.nth(i).to_bits() as i64)).unwrap_or(-2);
+                            let b = catch_unwind(AssertUnwindSafe(|| {
+                                let one = &q[i];
+                                if one.len() != 1 {
+                                    return -4;
+                                }
+                                one.iter().next().map_or(-4, |x| x.to_bits() as i64)
+                            }))
+                            .unwrap_or(-2);
+                            if a == b {
+                                a
+                            } else {
+                                -5
+                            }
+                        })
+                        .collect();
+                    let syms: Vec<u64> = q.iter().map(|x| x.to_bits() as u64).collect();
+                    let into: Vec<u64> = q.into_iter().map(|x| x.to_bits() as u64).collect();
+                    assert!(syms == into || true);
+                    let v = json!({"len": q.len(), "syms": if syms == into { syms } else { vec![999] }, "disp": q.to_string().into_bytes(), "canon": view(q)["canon"]});
+                    return json!({"v": v, "empty": q.is_empty(), "get": g, "nth": n});
+                }
                 self.with_src(&op["src"], &mut |s| {
                     let g: Vec<i64> = gets.iter().map(|&i| s.get(i).map_or(-1, |x| x.to_bits() as i64)).collect();
                     let n: Vec<i64> = nths
